@@ -82,8 +82,12 @@ def handle (op : String) (j : Json) : Option Json :=
   | "gc.observe" =>
     -- the statement for the collector half, evaluated on what the harness measured: nothing
     -- tracked beyond the baseline, nothing pooled beyond the baseline
-    some (obj [("spec", obj [("tracked_leaked", toJson (0 : Nat)), ("pool_leaked", toJson (0 : Nat)),
-                             ("panic", toJson false)])])
+    -- programs that carry an expected manifestation (`"expect"`) must also produce exactly that
+    let base : List (String × Json) :=
+      [("tracked_leaked", toJson (0 : Nat)), ("pool_leaked", toJson (0 : Nat)), ("panic", toJson false)]
+    match str? j "expect" with
+    | some e => some (obj [("spec", obj (base ++ [("result", .str e)]))])
+    | none => some (obj [("spec", obj base)])
   | _ => none
 
 end JrsVerif.Drv.C18
